@@ -109,6 +109,11 @@ var paddings = [][]byte{nil, {0x00}, {0xff, 0x80, 0x01, 0xff, 0xff, 0xff, 0xff, 
 // checkEncodeU: one unsigned value through encoder, size function, decoder,
 // paddings and every strict prefix.
 func (c *codecRun) checkEncodeU(u uint64) {
+	defer func() {
+		if r := recover(); r != nil {
+			c.fail("C18.no-panic", "encoding or decoding the integer %d (or its signed images) panicked: %v", u, r)
+		}
+	}()
 	var b []byte
 	enc.EncodeUvarint64(&b, u)
 	c.res.Evaluations++
@@ -184,6 +189,11 @@ func (c *codecRun) checkEncodeU(u uint64) {
 }
 
 func (c *codecRun) checkEncodeF(f float64) {
+	defer func() {
+		if r := recover(); r != nil {
+			c.fail("C18.no-panic", "encoding or decoding the float %v (bits %#x) panicked: %v", f, math.Float64bits(f), r)
+		}
+	}()
 	var b []byte
 	enc.EncodeVarfloat64(&b, f)
 	c.res.Evaluations++
@@ -390,10 +400,17 @@ func codecShards(tier string) []mc.Shard {
 				c.fail("C18.flag", "flag byte %#02x round-trips to % x", i, b)
 			}
 		}
-		var e []byte
-		if _, err := enc.DecodeFlag(&e); err != io.EOF {
-			c.fail("C18.flag", "DecodeFlag of an empty slice gave %v", err)
-		}
+		func() {
+			defer func() {
+				if r := recover(); r != nil {
+					c.fail("C18.no-panic", "DecodeFlag of an empty slice panicked: %v", r)
+				}
+			}()
+			var e []byte
+			if _, err := enc.DecodeFlag(&e); err != io.EOF {
+				c.fail("C18.flag", "DecodeFlag of an empty slice gave %v", err)
+			}
+		}()
 		c.res.Samples = []string{"2^k+d for k<=64,|d|<=3; all values with <=2 set bits; x*2^s; NaN, +-Inf, subnormals, 2^53+-2; all 256 flag bytes"}
 	})
 	// decoders: all byte strings up to length 3 (4 in the thorough tier), by first byte
